@@ -90,8 +90,9 @@ claim("C17",
       "locate_anchor (over ANY linearly ordered field, hence over R and Q): every point strictly inside the lattice triangle of the anchor of position s is located back to s by ij_to_s - the SAME generic Lean definition that runs at Float in the correspondence; positions_injective / triangles_disjoint; "
       "positions_onto_lattice_triangles (every off-lattice point of the quintant triangle lies in the triangle of exactly one position: no position unused, no cell reachable twice); centres_in_quintant_triangle; s_to_anchor / ij_to_s total (no overflow) and ij_to_s < 4^n at any scalar type; "
       "orientation flag sets of the two Rust functions agree and never set flipIJ and invertJ together (decide on the regenerated sets). "
-      "[numeric residue, searched] that the float pentagon centre lies strictly inside its anchor triangle: measured on every run (margin 0.148655 lattice units at every depth) with the full round trip s -> anchor -> pentagon -> centre -> ij_to_s = s on the implementation, exhaustive for n <= 5 (quick) / n <= 8 (thorough) x 6 orientations, patterned positions to n = 29.",
-      "Lean 4 proof (induction over quaternary digit lists; 16-case subdivision lemma over an ordered field; decide on regenerated tables) + bit-exact correspondence + exhaustive small-depth round trips",
+      "pentagon layer (centre_in_anchor_triangle, centre_located, pentagons_distinct, centres_in_quintant), in EXACT rational arithmetic on the f64 constants the running library computes at start-up (Gen/Runtime.lean, regenerated from the running code and cross-checked bit-for-bit between library and model on every run): the centre of the pentagon get_pentagon_vertices draws for position s (generic twin pentagonLocalG, tied to the Float model by pentagonLocal_tie) lies more than 0.14 lattice units inside the anchor's triangle for every depth, orientation and position (8 kernel-evaluated local cases + an explicit bound 2^-50 on the defect of BASIS_INVERSE*BASIS), hence is located back to s, different positions have different pentagons and every centre lies in the quintant triangle. "
+      "[numeric residue, searched] that the f64 evaluation of the centre and of ij_to_s stays inside that 0.14 margin (rounding about 1e-7 lattice units at depth 29): the full round trip s -> anchor -> pentagon -> centre -> ij_to_s = s is run on the implementation, exhaustive for n <= 5 (quick) / n <= 8 (thorough) x 6 orientations, patterned positions to n = 29.",
+      "Lean 4 proof (induction over quaternary digit lists; 16-case subdivision lemma over an ordered field; exact rational evaluation of the runtime pentagon constants; decide on regenerated tables) + bit-exact correspondence + exhaustive small-depth round trips",
       "DESIGN.md section 6 C17")
 claim("C18",
       "[full] segment_quintant_bijection (all 12 faces x 5, both directions, same orientation; every layout is one of the four named fans; ORIGIN_ORDER is a permutation) by decide over the regenerated tables through integer mirrors tied to the model by rfl; "
@@ -112,7 +113,8 @@ claim("C01",
 claim("C02",
       "[full, exact arithmetic] cell_roundtrip_exact: for every valid cell of resolution >= 2 and every orientation, over any ordered field: id -> decode -> anchor -> ANY point of the anchor's lattice triangle -> ij_to_s -> encode is the identity (composition of C05 and C17); distinct cells of a quintant have disjoint lattice triangles; "
       "segment<->quintant conversions are mutually inverse; lookup_direct_hit_is_roundtrip / roundtrip_of_direct_hit on the Float model (branch 0 <=> the estimate of the point itself contains it). "
-      "[residue, stated as unproved defs] that the float pentagon centre lies inside its lattice triangle with margin and that the projection round trip error stays below it: measured on every run (C17: margin 0.1487; C15: 8e-15 rad). "
+      "centre_roundtrip_exact: the exact rational centre of the pentagon drawn from the library's start-up constants (Gen/Runtime.lean) lies > 0.14 lattice units inside the cell's lattice triangle, so id -> pentagon centre -> ij_to_s -> encode returns the id in exact arithmetic for every valid cell of resolution >= 2. "
+      "[residue, stated as unproved defs] that the f64 evaluation of that centre and the projection round trip stay inside the margin: measured on every run (C17: margin 0.1487; C15: 8e-15 rad). "
       "Search: cell -> reported centre -> lookup for every cell r<=3 (quick) / r<=6 (thorough) and every face x quintant x patterned positions to r=29, plus interior points on centre-corner chords; bit-exact correspondence. "
       "Misses that come from the lookup's fallback branch at high latitude are the recorded finding F11 (same predicate as C01).",
       "Lean 4 proof (composition of the codec and curve bijection theorems over an ordered field) + bit-exact correspondence + exhaustive low-resolution round trips",
